@@ -37,6 +37,8 @@ def run(F, chk):
     V5 = chk.rule('V5', 'data reaches the save table only through the `state == Complete` filter; `save` writes only data taken from that table')
     bodies = [b for b in F.order if b.path.startswith(MOD) or (b.impl_self or '').startswith(MOD) or b.path.startswith('<' + MOD)]
     V1.floor('bodies of the file-transfer plugin', len(bodies), 20)
+    V6 = chk.rule('V6', 'every index that picks a transfer while a message is processed derives, on every definition, from the transfers_idx entry for (msg.ecu, msg.lifecycle, serial)')
+    check_routing(F, [b for b in bodies if '::tests::' not in b.path], V6)
     creates = []
     for b in bodies:
         for blk in b.calls():
@@ -222,6 +224,13 @@ def check_complete(F, bodies, V3):
             if t.callee.path.endswith('FileTransfer::check_finished') and len(t.args) == 2 and t.args[1].is_const and t.args[1].value == 0:
                 cfg = CFG(b)
                 tests = set(x.i for x in b.calls() if x.term.callee.path.endswith('PartialEq::eq') and 'FileTransferState' in (x.term.args[0].ty or ''))
+                # `match self.state { Started | MissingStart => .., _ => return }` tests the discriminant directly
+                Es = ExprBuilder(cfg, fold_named=True)
+                for x in b.blocks:
+                    if not x.cleanup and x.term.k == 'switch':
+                        sc = show(Es.switch_cond(x))
+                        if sc.startswith('discr(') and sc.rstrip(')').endswith('.state'):
+                            tests.add(x.i)
                 r = cfg.reachable_from(0, avoid=tests)
                 V3.sites += 1
                 if tests and blk.i not in r:
@@ -348,3 +357,91 @@ def check_save_table(F, bodies, other_creates, V5):
             V5.ok(sample={'save_command_create_at': b.loc(blk.term.sp), 'data_from': 'completed_transfers.get(idx)'})
         else:
             V5.violation(('save-source', b.closure_of or b.path), 'the save command creates a file at %s whose data is not taken from the completed-transfers table' % b.loc(blk.term.sp), where=b.loc(blk.term.sp))
+
+
+# ---------------------------------------------------------------------------------------------
+# V6: a package is routed to the transfer found under (ecu, lifecycle, serial)
+
+def check_routing(F, bodies, V6):
+    """Transfers are identified by (ecu, lifecycle, serial) - the key of `transfers_idx`.  Every index with which the plugin
+    picks a transfer out of `self.transfers` while processing a message must, on *every* definition that can reach it (a
+    must-provenance: each branch of a phi separately), derive from a `transfers_idx` lookup/insert position computed for
+    msg.ecu and msg.lifecycle - or be the position of the transfer just pushed.  A shortcut keyed by the serial alone
+    routes the packages of one ECU's transfer into the transfer of another ECU with the same serial."""
+    from prov import Prov
+    n = 0
+    for b in bodies:
+        sites = []
+        for blk in b.calls():
+            t = blk.term
+            if re.search(r'(Vec::<T, A>::get_mut|Vec::<T, A>::get|slice::<impl \[T\]>::get_mut|slice::<impl \[T\]>::get|ops::Index::index|ops::IndexMut::index_mut)$', t.callee.path) and len(t.args) > 1 and \
+                    re.search(r'file_transfer::FileTransfer[\]>]', (t.args[0].ty or '')) and 'transfers' in show(ExprBuilder(CFG(b)).operand(t.args[0])):
+                sites.append(blk)
+        if not sites or not any('DltMessage' in t for t in b.arg_types()):
+            continue
+        cfg = CFG(b)
+        pr = Prov(cfg)
+
+        def tok_ok(toks):
+            ecu = any(t[0] == 'fld' and t[1] == 'adlt::dlt::DltMessage' and t[2] == 'ecu' for t in toks)
+            lc = any(t[0] == 'fld' and t[1] == 'adlt::dlt::DltMessage' and t[2] == 'lifecycle' for t in toks)
+            tab = any(t[0] == 'fld' and t[2] == 'transfers_idx' for t in toks)
+            pushed = any(t[0] == 'call' and t[1].endswith('::len') for t in toks) and any(t[0] == 'fld' and t[2] == 'transfers' for t in toks)
+            return (ecu and lc and tab) or (pushed and not tab and not any(t[0] == 'fld' and t[2] not in ('transfers',) and t[1].endswith('FileTransferPlugin') for t in toks))
+
+        def must(op, at, depth=0, seen=None):
+            """every definition reaching this operand satisfies tok_ok (phi branches separately)"""
+            seen = seen if seen is not None else set()
+            if op.is_const:
+                return True
+            if op.place is None or depth > 6:
+                return False
+            l = op.place.l
+            if not op.place.is_local and not all(e['k'] in ('deref', 'f', 'dc', 'downcast') for e in op.place.p):
+                return tok_ok(pr.operand(op, at=at))
+            if any(e['k'] == 'f' and e.get('o', '').startswith('adlt') for e in op.place.p):
+                return tok_ok(pr.operand(op, at=at))      # read of a struct field (e.g. a cache): judged by its own provenance
+            if l in seen:
+                return True
+            seen.add(l)
+            ds = cfg.defs.get(l, [])
+            if not ds:
+                return tok_ok(pr.operand(op, at=at))
+            for (bi, si, d) in ds:
+                if at is not None and bi != at and at not in pr.reach(bi):
+                    continue
+                if si == 'call':
+                    toks = {('call', d.callee.path)}
+                    for a in d.args:
+                        toks |= pr.operand(a, at=bi)
+                    if not tok_ok(toks):
+                        return False
+                    continue
+                rv = d.rv
+                if rv['k'] in ('use', 'cast'):
+                    if not must(Operand(rv['o']), bi, depth + 1, seen):
+                        return False
+                elif rv['k'] == 'agg':
+                    for o in rv['ops']:
+                        if not must(Operand(o), bi, depth + 1, seen):
+                            return False
+                elif rv['k'] in ('ref', 'rawptr'):
+                    if not must(Operand({'k': 'copy', 'p': rv['p']}), bi, depth + 1, seen):
+                        return False
+                else:
+                    toks = set()
+                    for o in d.rv_operands():
+                        toks |= pr.operand(o, at=bi)
+                    if not tok_ok(toks):
+                        return False
+            return True
+        for blk in sites:
+            n += 1
+            V6.sites += 1
+            V6.fn(b.path)
+            if must(blk.term.args[1], blk.i):
+                V6.ok(sample={'function': b.path, 'transfer_picked_at': b.loc(blk.term.sp), 'index_derives_from': 'transfers_idx[(msg.ecu, msg.lifecycle, serial)] on every definition'})
+            else:
+                V6.violation(('transfer-not-keyed', b.closure_of or b.path), '%s picks a transfer at %s with an index that, on some definition reaching it, does not come from the transfers_idx entry for (msg.ecu, msg.lifecycle, serial): '
+                             'packages of one ECU/lifecycle can be appended to the transfer of another one with the same serial' % (b.path, b.loc(blk.term.sp)), where=b.loc(blk.term.sp))
+    V6.floor('sites picking a transfer by index while processing a message', n, 2)
